@@ -910,6 +910,229 @@ def line_reader_correspondence(ctx, exe):
 
 
 # ---------------------------------------------------------------------------------------------------------------
+# classified-reader correspondence (CSV / CSV-lite / PPRINT / XTAB models in coq/C18/ModelReaders.v)
+# ---------------------------------------------------------------------------------------------------------------
+CLS_NAMES = {0: "ok", 1: "err-invalid-delimiter", 2: "err-bare-quote", 3: "err-bad-quote", 4: "err-length-mismatch", 5: "err-xtab-internal"}
+
+
+def _b(x):
+    return "true" if x else "false"
+
+
+def cr_optsets(fmt):
+    """(name, mlr flags, Coq reader term) for the modelled options of each format"""
+    out = []
+    if fmt == "csv":
+        for implicit in (False, True):
+            for lazy in (False, True):
+                for dedupe in (True, False):
+                    for ragged in (False, True):
+                        for comma in (b",", b";", b'"'):
+                            if comma != b"," and (implicit or not dedupe):
+                                continue
+                            flags = ["--icsv"] + (["--implicit-csv-header"] if implicit else []) + (["--lazy-quotes"] if lazy else []) + \
+                                (["--no-dedupe-field-names"] if not dedupe else []) + (["--allow-ragged-csv-input"] if ragged else []) + \
+                                (["--ifs", comma.decode()] if comma != b"," else [])
+                            term = "(RCsv (mkO %s %s %s %s false (ascii_of_N %d%%N)))" % (_b(implicit), _b(lazy), _b(dedupe), _b(ragged), comma[0])
+                            name = "+".join(n for n, v in (("implicit", implicit), ("lazy", lazy), ("no-dedupe", not dedupe), ("ragged", ragged), ("ifs" + comma.decode(), comma != b",")) if v) or "default"
+                            out.append((name, flags, term, comma))
+    elif fmt == "csvlite":
+        for ragged in (False, True):
+            for dedupe in (True, False):
+                for ifs, repifs in ((b",", False), (b";;", False), (b",", True)):
+                    flags = ["--icsvlite"] + (["--allow-ragged-csv-input"] if ragged else []) + (["--no-dedupe-field-names"] if not dedupe else []) + \
+                        (["--ifs", ifs.decode()] if ifs != b"," else []) + (["--repifs"] if repifs else [])
+                    term = "(RLite (mkL %s %s None %s %s))" % (coq_bytes(ifs), _b(repifs), _b(dedupe), _b(ragged))
+                    name = "+".join(n for n, v in (("ragged", ragged), ("no-dedupe", not dedupe), ("ifs" + ifs.decode(), ifs != b","), ("repifs", repifs)) if v) or "default"
+                    out.append((name, flags, term, ifs))
+    elif fmt == "pprint":
+        for ragged in (False, True):
+            for dedupe in (True, False):
+                flags = ["--ipprint"] + (["--allow-ragged-csv-input"] if ragged else []) + (["--no-dedupe-field-names"] if not dedupe else [])
+                term = "(RLite (pprint_opts %s %s))" % (_b(dedupe), _b(ragged))
+                out.append(("+".join(n for n, v in (("ragged", ragged), ("no-dedupe", not dedupe)) if v) or "default", flags, term, b" "))
+    elif fmt == "xtab":
+        for dedupe in (True, False):
+            for ips in (b" ", b":", b": "):
+                flags = ["--ixtab"] + (["--no-dedupe-field-names"] if not dedupe else []) + (["--ips", ips.decode()] if ips != b" " else [])
+                term = "(RXtab %s %s)" % (coq_bytes(ips), _b(dedupe))
+                out.append(("+".join(n for n, v in (("no-dedupe", not dedupe), ("ips" + ips.decode().replace(" ", "_"), ips != b" ")) if v) or "default", flags, term, ips))
+    return out
+
+
+def cr_parse_error(fmt, stderr):
+    """observed error class as (python tuple, Coq term) or None when the message is not one of the modelled classes"""
+    m = re.search(rb"CSV header/data length mismatch (\d+) != (\d+) at filename \S+ (row|line) (\d+)", stderr)
+    if m and (m.group(3) == b"row") == (fmt == "csv"):
+        t = (int(m.group(1)), int(m.group(2)), int(m.group(4)))
+        return ("err-length-mismatch",) + t, "(Some (EMismatch %d%%N %d%%N %d%%N))" % t
+    if b'bare " in non-quoted-field' in stderr:
+        return ("err-bare-quote",), "(Some (EParse BareQuote))"
+    if b'extraneous or missing " in quoted-field' in stderr:
+        return ("err-bad-quote",), "(Some (EParse BadQuote))"
+    if b"invalid field or comment delimiter" in stderr:
+        return ("err-invalid-delimiter",), "(Some EDelim)"
+    return None
+
+
+def cr_observe(exe, items):
+    """items: list of (fmt, flags, term, doc) -> list of (item, records|None, err tuple|None, coq term|None, raw)"""
+    reqs = [{"id": i, "args": ["-S"] + flags + ["put", "-q", DUMP], "stdin": d} for i, (fmt, flags, term, d) in enumerate(items)]
+    groups = [reqs[i::max(1, NJOBS)] for i in range(max(1, NJOBS))]
+    res = inproc_many(exe, [g for g in groups if g])
+    out = []
+    for i, it in enumerate(items):
+        fmt, flags, term, d = it
+        o = res.get(i)
+        if not o or o["class"] not in ("ok", "exit") or o["out_len"] > 4000:
+            out.append((it, None, None, None, o))
+            continue
+        recs, okparse = [], True
+        for line in o["out"].decode("latin1").splitlines():
+            if not line.startswith("R"):
+                okparse = False
+                break
+            rec = []
+            for kv in line[1:].split():
+                k, _, v = kv.partition(":")
+                try:
+                    rec.append((bytes.fromhex(k), bytes.fromhex(v)))
+                except ValueError:
+                    okparse = False
+            recs.append(rec)
+        if not okparse:
+            out.append((it, None, None, None, o))
+            continue
+        if o["class"] == "exit":
+            pe = cr_parse_error(fmt, o["stderr"])
+            if pe is None:
+                out.append((it, recs, ("err-unrecognised", o["stderr"][:200].decode("latin1")), None, o))
+                continue
+            out.append((it, recs, pe[0], "(%s, %s, %s, %s)" % (term, coq_bytes(d), "[]", pe[1]), o))
+        else:
+            out.append((it, recs, None, "(%s, %s, %s, None)" % (term, coq_bytes(d), coq_records(recs)), o))
+    return out
+
+
+CR_TY = "rdr * bytes * list record * option cerr"
+CR_IMPORTS = "Base.Record C01.Model C18.ModelReaders C18.Harness"
+
+
+def cr_shrink(ctx, exe, fmt, flags, term, doc, rounds=3):
+    """batch delta debugging of a model/implementation disagreement: every round evaluates all single-chunk removals
+    (implementation in-process, model in ONE coqc run) and keeps the smallest input on which they still disagree"""
+    cur = doc
+    for _ in range(rounds):
+        n = len(cur)
+        if n <= 1:
+            break
+        chunk = max(1, n // 12)
+        cands = sorted({cur[:i] + cur[i + chunk:] for i in range(0, n, chunk)} | {cur[:i] for i in range(1, n, max(1, n // 8))}, key=len)
+        cands = [c for c in cands if c != cur and b"\x00" not in c][:40]
+        obs = cr_observe(exe, [(fmt, flags, term, c) for c in cands])
+        terms = [(o[0][3], o[3]) for o in obs if o[3] is not None]
+        if not terms:
+            break
+        bad, cerr = coq_eval_mismatches(ctx, "C18_shrink", CR_IMPORTS, CR_TY, "chk2", [t for _, t in terms])
+        bad = [i for i in bad if 0 <= i < len(terms)]
+        if cerr or not bad:
+            break
+        cur = min((terms[i][0] for i in bad), key=len)
+    return cur
+
+
+def classified_reader_correspondence(ctx, exe):
+    rng = ctx.rng
+    n = 110 if ctx.tier == "quick" else 2500
+    alpha = {"csv": b'ab,"\n\r1 ;', "csvlite": b'ab,;\n\r1 "', "pprint": b"ab -\n\r1|", "xtab": b"ab :\n\r1"}
+    extra = {
+        "csv": [b'a,b\n1,x"y\n3,4\n', b'a,b\n1,"x"y\n3,4\n', b'a,b\n1,"xy\n3,4\n', b'a,b\n1,2,x"y\n3,4\n', b'a,b\nx"y,2\n', b'a,b\n"x"y,2\n', b'a,b\n"xy', b'a,b\n1,2\n\n',
+                b'a,b\n1,2\n\r', b"\r", b"a,b\r\n1,2\r\n", b"a,b\r1,2\r", b'a,b\n"1\r\n2",3\n', b'a,b\n1,2\r', b'"a",\n1,2\n', b'a,a\n1,2\n', b'a,a,a_2\n1,2,3\n',
+                b'a,b\n1\n', b'a,b\n1,2,3\n', b'\n1,2\n', b'a\n\n\n', b'a,b\n"",""\n', b'a,b\n1,"2""3"\n', b'a,b\n1,"2"",3\n', b'a;b\n1;2\n', b'a,b\n1,2\n"', b'",",b\n1,2\n',
+                b'\xef\xbb\xbfa,b\n1,2\n', b'\xef\xbb\xbf"a",b\n1,2\n', b'a,b\n1,2\n3\n4,5\n', b'a,b\n,\n', b'a,b\n1,"\n\n"\n', b'a,b\n1,2"\n', b'a,b\n1,""x\n'],
+        "csvlite": [b"a,b\n1,2\n\nc\n3\n", b"a,b\n1\n", b"a,b\n\n1\n", b"a,b\n1,2\n\n\n3,4\n5,6,7\n", b"a,a\n1,2\n", b"a;;b\n1;;2\n", b"a,,b\n1,,2\n", b",\n,\n", b"\xef\xbb\xbfa\n1\n",
+                    b"a,b\n1,2,3\n", b"a,b,c\n1,2\n", b"a\n\na,b\n1\n"],
+        "pprint": [b"a b\n1 -\n", b"a   b\n- -\n\nc\n-\n", b"a b\n1\n", b"a b\n1 2 3\n", b"  a  b  \n 1 2\n", b" \n", b"a\n \n", b"a a\n1 2\n", b"a - b\n1 2 3\n"],
+        "xtab": [b"a 1\nb 2\n", b"a    1\n\n\nb\n", b"a\n", b" a 1\n", b"  \n", b"a 1\na 2\na_2 3\n", b"a:1\nb::2\n", b"a: 1\nb:  : 2\n", b"\n\na 1", b"a 1\r\nb 2\r\n\r\nc 3\r\n"],
+    }
+    items, meta = [], []
+    for fmt in ("csv", "csvlite", "pprint", "xtab"):
+        osets = cr_optsets(fmt)
+        docs = list(SEEDS[fmt]) + extra[fmt] + [b"", b"\n", b"\r\n", b"a", b"\n\n"]
+        for s in SEEDS[fmt][:3]:
+            docs += [s[:i] for i in range(1, len(s), 1 if ctx.tier == "thorough" else 2)]
+        for _ in range(n):
+            if rng.random() < 0.5:
+                docs.append(bytes(rng.choice(alpha[fmt]) for _ in range(rng.randint(0, 18))))
+            else:
+                docs.append(mutate(rng, rng.choice(SEEDS[fmt] + extra[fmt]), FMT_SEP[fmt])[1][:300])
+        seen = set()
+        for j, d in enumerate(docs):
+            if b"\x00" in d:
+                continue
+            # the hand-written documents meet every option set, the generated ones a random one
+            for (oname, flags, term, sep) in (osets if d in extra[fmt] and ctx.tier == "thorough" else [osets[0], rng.choice(osets)] if j < len(SEEDS[fmt]) + len(extra[fmt]) else [rng.choice(osets)]):
+                dd = d
+                if sep not in (b",", b" ") and rng.random() < 0.7:
+                    dd = d.replace(FMT_SEP[fmt], sep)      # make the alternative separator occur
+                if (oname, dd) in seen:
+                    continue
+                seen.add((oname, dd))
+                items.append((fmt, flags, term, dd))
+                meta.append(oname)
+    with ctx.timed("classified_reader_inproc"):
+        obs = cr_observe(exe, items)
+    terms, tmeta, tally, unrec = [], [], {}, []
+    for (it, recs, err, term, raw), oname in zip(obs, meta):
+        fmt = it[0]
+        if term is None:
+            if err and err[0] == "err-unrecognised":
+                unrec.append((it, err))
+            continue
+        cls = err[0] if err else "ok"
+        tally.setdefault(fmt, {}).setdefault(cls, 0)
+        tally[fmt][cls] += 1
+        terms.append(term)
+        tmeta.append((it, recs, err, oname))
+        ctx.count(("classified-reader", fmt, oname, it[3])); ctx.dist("classified-reader:" + fmt); ctx.dist("classified-reader-outcome:" + cls)
+    with ctx.timed("coq_cases_classified"):
+        bad, cerr = coq_eval_mismatches(ctx, "C18_cr", CR_IMPORTS, CR_TY, "chk2", terms)
+    ctx.cov["classified_reader_correspondence"] = {"cases": len(terms), "mismatches": len(bad), "per_format_and_outcome": tally,
+                                                   "option_sets": {f: len(cr_optsets(f)) for f in ("csv", "csvlite", "pprint", "xtab")},
+                                                   "unrecognised_error_messages": len(unrec)}
+    if cerr:
+        ctx.violation({"broken": "correspondence-evaluation (classified readers)", "detail": cerr[-2000:]}, found_input=False)
+        return
+    for it, err in unrec[:3]:
+        ctx.violation({"broken": "classified-reader correspondence: the implementation reports an error outside the modelled classes", "format": it[0], "args": it[1],
+                       "stdin_hex": it[3].hex(), "observed_error": err[1]}, found_input=False)
+    per_fmt = {}
+    for i in sorted((j for j in bad if j >= 0), key=lambda j: len(tmeta[j][0][3])):
+        (fmt, flags, term, d), recs, err, oname = tmeta[i]
+        if per_fmt.get(fmt, 0) >= 2:
+            continue
+        per_fmt[fmt] = per_fmt.get(fmt, 0) + 1
+        # is the disagreement a panic / hang of the real binary on this or a neighbouring input?
+        st, out, e2 = run_cli(ctx, flags + ["--ojson", "cat"], d, timeout=25)
+        k = c18_classify(st, e2)
+        if k not in ("ok", "mlr_error"):
+            ctx.violation({"class": reader_class({"fmt": fmt}, k, e2), "part": "reader", "broken": "correspondence C18.Harness.chk2", "args": flags + ["--ojson", "cat"],
+                           "input": "mlr %s --ojson cat < stdin" % " ".join(flags), "stdin_hex": d.hex(), "observed": "%s exit=%s %s" % (k, st, e2.decode("utf-8", "replace")[:400]),
+                           "expected": "records or an `mlr:` error with non-zero exit"})
+            continue
+        small = cr_shrink(ctx, exe, fmt, flags, term, d)
+        o2 = cr_observe(exe, [(fmt, flags, term, small)])[0]
+        ctx.violation({"broken": "correspondence C18.Harness.chk2 (classified reader model vs implementation)", "class": "reader-model-disagreement-%s" % fmt, "part": "reader-model",
+                       "format": fmt, "options": oname, "args": flags, "stdin_hex": small.hex(), "stdin": small.decode("latin1"),
+                       "stdin_hex_before_shrinking": d.hex() if small != d else None, "coq_reader": term,
+                       "observed_records": [[(k.decode("latin1"), v.decode("latin1")) for k, v in r] for r in (o2[1] or [])], "observed_error": list(o2[2]) if o2[2] else None,
+                       "expected": "the outcome (records, or error class with its numbers) computed by read_*_c under vm_compute"}, found_input=False)
+    if tmeta:
+        (fmt, flags, term, d), recs, err, oname = tmeta[len(tmeta) // 3]
+        ctx.sample({"format": fmt, "options": oname, "stdin": d.decode("latin1"), "records": len(recs or []), "error": list(err) if err else None})
+
+
+# ---------------------------------------------------------------------------------------------------------------
 # part 3: DSL text mutations
 # ---------------------------------------------------------------------------------------------------------------
 TOKEN_RE = re.compile(r'"(?:[^"\\]|\\.)*"|[A-Za-z_$@][A-Za-z_0-9]*|\d+\.?\d*(?:[eE][-+]?\d+)?|0x[0-9a-fA-F]+|\*\*=?|//=?|\.\+|\.\*|\./|\.-|<<=?|>>>?=?|&&=?|\|\|=?|\^\^=?|\?\?\??=?|=~|!=~|[<>!=]=|<=>|[-+*/%.&|^]=|\S')
@@ -1085,20 +1308,32 @@ def run(ctx):
 
 
 def run_parts(ctx, exe):
-    mats = gen_bif_table(ctx, exe)
+    # VERIF_C18_ONLY=bif,line,classified,reader,special,dsl,stress runs a subset (development aid; the registered command runs all)
+    only = set(filter(None, os.environ.get("VERIF_C18_ONLY", "").split(",")))
+    want = lambda p: not only or p in only
     forbidden_gate(ctx, ["Base", "C18"])
-    ok, why = check_props(ctx, "C18/Props.v", ["C18/TableProofs.vo", "C18/Harness.vo", "C18/Proofs.vo"])
-    by_class = bif_oracle(ctx, mats)
-    if not ok:
-        # a proof obligation broke: the oracle above has reported the failing tuples if the table is the reason
-        if not (by_class and isinstance(why, dict) and "TableProofs" in json.dumps(why)):
-            ctx.violation({"broken": why}, found_input=False)
-        elif not ctx.violations and not ctx.known_reported:
-            ctx.violation({"broken": why}, found_input=False)
-    line_reader_correspondence(ctx, exe)
-    reader_part(ctx, exe)
-    special_inputs(ctx)
-    dsl_part(ctx, exe)
+    if want("bif"):
+        mats = gen_bif_table(ctx, exe)
+        ok, why = check_props(ctx, "C18/Props.v", ["C18/TableProofs.vo", "C18/Harness.vo", "C18/Proofs.vo", "C18/ProofsReaders.vo"])
+        by_class = bif_oracle(ctx, mats)
+        if not ok:
+            # a proof obligation broke: the oracle above has reported the failing tuples if the table is the reason
+            if not (by_class and isinstance(why, dict) and "TableProofs" in json.dumps(why)):
+                ctx.violation({"broken": why}, found_input=False)
+            elif not ctx.violations and not ctx.known_reported:
+                ctx.violation({"broken": why}, found_input=False)
+    else:
+        coq_make(["C18/Harness.vo", "C18/ProofsReaders.vo"])
+    if want("line"):
+        line_reader_correspondence(ctx, exe)
+    if want("classified"):
+        classified_reader_correspondence(ctx, exe)
+    if want("reader"):
+        reader_part(ctx, exe)
+    if want("special"):
+        special_inputs(ctx)
+    if want("dsl"):
+        dsl_part(ctx, exe)
 
 
 def replay(ctx, path):
